@@ -36,6 +36,8 @@ func init() {
 			{ID: "C20-R13", Title: "diagnostics are not built by using a message as a format (shared with C01)", Floor: 1, Run: messagesAreNotFormats},
 			{ID: "C20-R14", Title: "the lexer's cursor stops just past the input", Floor: 1, Run: cursorStopsJustPastTheInput},
 			{ID: "C20-R15", Title: "fragments parsed on their own are rebased to their place in the source", Floor: 1, Run: fragmentsAreRebased},
+			{ID: "C20-R16", Title: "comments are skipped until none is left", Floor: 2, Run: commentsAreSkippedUntilNoneIsLeft},
+			{ID: "C20-R17", Title: "closers are tested after the newlines", Floor: 2, Run: closersAreTestedAfterTheNewlines},
 		},
 	})
 }
